@@ -366,7 +366,7 @@ def stop_workers():
     _workers.clear()
 
 
-HANG_BUDGET = 3
+HANG_BUDGET = 2
 _confirmed_hangs = 0
 
 
@@ -382,8 +382,10 @@ def call(req, build="chk", timeout=30.0, retry_alone=True):
         return "crash", Crash("hang", "not attempted: %d inputs of this shard already hung" % _confirmed_hangs, "")
     w = get_worker(build)
     resp, crash = w.request(req, timeout)
-    if crash is not None and crash.kind == "hang" and not retry_alone:
+    if crash is not None and crash.kind == "hang" and (not retry_alone or _confirmed_hangs > 0):
+        # (once a hang has been confirmed alone in this shard, later ones are taken at the first limit)
         _confirmed_hangs += 1
+        return "crash", crash
     if crash is not None and crash.kind == "hang" and retry_alone:
         w2 = Worker(build)
         resp, crash2 = w2.request(req, timeout * 4)
